@@ -73,6 +73,12 @@ def listset(t: T):
         return bx, out
     if t.op == "const" and isinstance(t.a[0], tuple):
         return None, [(const(v), ()) for v in t.a[0]]
+    if t.op == "comp" and t.a[0] == "list" and len(t.a[2]) == 1 and t.a[1] == t.a[2][0][0]:
+        # [c for c in <candidates> if keep(c)]: the candidates, each under its own additional condition
+        elem_, src_, conds_ = t.a[2][0]
+        b_, adds_ = listset(src_)
+        if b_ is None:
+            return None, [(e_, cd_ + tuple((sym.subst(c_, {elem_: e_}), True) for c_ in conds_)) for e_, cd_ in adds_]
     if t.op == "call" and t.a[0] == T("global", ("itertools.compress",)):
         got = render.listify(t)
         if got is not None:
@@ -87,6 +93,27 @@ def _in_tuple_as_or(t: T) -> T:
                 and not any(i.op == "star" for i in x.a[2].a[0]):
             o = T("bool", ("or", tuple(T("cmp", ("==", x.a[1], i)) for i in x.a[2].a[0])))
             return o if x.a[0] == "in" else T("not", (o,))
+        return x
+    return normal.rewrite(t, fn)
+
+
+def _sentinel_forms(t: T) -> T:
+    """`(K if x == K else x)` is x; `('' if pid == -1 else names.get(pid, ''))` is `names.get(pid, '')`: -1 is the marker
+    threads_pids.get(tid, -1) itself uses for "no such thread", never a key of the process table (assumption stated in the
+    evidence)."""
+    def fn(x: T) -> T:
+        if x.op != "ite" or x.a[0].op != "cmp" or x.a[0].a[0] not in ("==", "!="):
+            return x
+        c, a, b = x.a
+        if c.a[0] == "!=":
+            a, b = b, a
+        l, r = c.a[1], c.a[2]
+        for k, v in ((l, r), (r, l)):
+            if k.op == "const" and a == k and b == v:
+                return v
+            if k == const(-1) and a == const("") and b.op == "call" and b.a[0].op == "attr" and b.a[0].a[1] == "get" \
+                    and b.a[0].a[0] == A(SELF, "pids_names") and b.a[1] == (v, const("")):
+                return b
         return x
     return normal.rewrite(t, fn)
 
@@ -232,6 +259,7 @@ def check(repo: Repo, run: Run) -> None:
     class_lists: List[T] = []
     sub_ok = False
     got_kinds = set()
+    class_stage_cj = set()
     for s in inner:
         if s.kind != "filter":
             run.ob("R5", MOD, "traces", f"event stage {s.kind}", False,
@@ -261,6 +289,7 @@ def check(repo: Repo, run: Run) -> None:
             for it in items:
                 if it.op == "cmp" and it.a[0] == "in" and it.a[1] == cls_l:
                     class_lists.append(it.a[2])
+                    class_stage_cj.update(cj)
                 elif it.op == "cmp" and it.a[0] == "in" and it.a[1] == sub_l and it.a[2] == S:
                     sub_ok = True
                 else:
@@ -299,7 +328,9 @@ def check(repo: Repo, run: Run) -> None:
                        f"events are matched against {sym.pretty(b)[:80]}, which is neither the caller's filter_class nor "
                        f"a list of helper classes built here", line=fn.lineno)
         for e, cd in adds:
-            additions.append((e, pipeline.conjuncts(cd), "local list"))
+            # (a class of the list is consulted only when the class stage is applied at all: the stage's own condition is part
+            # of "when is this class let through" - the list may have been written with or without repeating it)
+            additions.append((e, frozenset(pipeline.conjuncts(cd) | class_stage_cj), "local list"))
     for e in rec.effects:           # in-place form
         pth = e.path if e.path is not None else e.base
         if e.kind == "mut-call" and pth == C and e.key in ("append",) and e.args:
@@ -330,6 +361,7 @@ def check(repo: Repo, run: Run) -> None:
             if b_ is None and adds_:
                 for e_, cd_ in adds_:
                     post.append((e_, pipeline.conjuncts(cd_), s))
+                    post.append((e_, frozenset(pipeline.conjuncts(cd_) | class_stage_cj), s))
     run.floor("R2", "helper classes added by traces()", len(additions), 2)
     for k, cj, how in additions:
         m = [p for p in post if p[0] == k]
@@ -373,37 +405,50 @@ def check(repo: Repo, run: Run) -> None:
            f"traces() also reads class(es) {[sym.pretty(k) for k in extra]} on its own", nontrivial=False)
 
     # ------------------------------------------------------------------ R4 process filter
-    proc = [s for s in stages if s.kind == "filter" and s.fn.op == "attr" and s.fn.a[0] == SELF]
-    others = [s for s in stages if s.kind == "filter" and s not in proc and not any(s is p[2] for p in post)]
+    tid = A(T("sub", (A(X, "ktraces"), const(0))), "tid")
+    get = lambda table, key, d: T("call", (T("attr", (A(SELF, table), "get")), (key, d), ()))
+    pid = get("threads_pids", tid, const(-1))
+    name = get("pids_names", pid, const(""))
+    fp = A(SELF, "filter_process")
+    want_pred = N(T("bool", ("or", (T("cmp", ("==", fp, T("call", (T("builtin", ("str",)), (pid,), ())))),
+                                    T("cmp", ("==", fp, name))))))
+
+    def predicate_of(stage):
+        """(normalised predicate over the element X, scope name, effects of the predicate, line) or None"""
+        f_ = stage.fn
+        if f_.op == "attr" and f_.a[0] == SELF and f_.a[1] in ci.methods and f_.a[1] in recs:
+            mfn_ = ci.methods[f_.a[1]]
+            if len(mfn_.args.args) != 2:
+                return None
+            body_ = sym.subst(recs[f_.a[1]].return_term(), {param(mfn_.args.args[1].arg): X})
+            return N(_sentinel_forms(_in_tuple_as_or(body_))), f_.a[1], recs[f_.a[1]].effects, mfn_.lineno
+        body_ = pipeline.predicate_body(f_)
+        if body_ is None:
+            return None
+        return N(_sentinel_forms(_in_tuple_as_or(body_))), "traces", [], fn.lineno
+    cands = [s for s in stages if s.kind == "filter" and not any(s is p[2] for p in post)]
+    preds = [(s, predicate_of(s)) for s in cands]
+    proc = [(s, p) for s, p in preds if p is not None and (p[0] == want_pred or sym.contains(p[0], fp))]
+    others = [s for s, p in preds if not any(s is q for q, _ in proc)]
     for s in others:
         run.ob("R4", MOD, "traces", "unrecognised trace filter", False,
                f"the trace stream is filtered by {s.describe()[:160]}, which the property does not allow", line=fn.lineno)
-    ok = len(proc) == 1 and proc[0].fn.a[1] in ci.methods
+    ok = len(proc) == 1
     run.ob("R4", MOD, "traces", "process filter stage", ok,
            "" if ok else "the process filter is not a single filter stage over the trace stream", nontrivial=False)
     if ok:
+        stage_, (gotp, scope_, effs_, line_) = proc[0]
         want = frozenset({N(T("cmp", ("is not", A(SELF, "filter_process"), const(None))))})
-        cj = pipeline.conjuncts(proc[0].cond)
+        cj = pipeline.conjuncts(stage_.cond)
         run.ob("R4", MOD, "traces", "process filter iff requested", cj == want,
                f"the process filter is applied when {sorted(map(sym.pretty, cj))}, not iff filter_process is not None",
                line=fn.lineno)
-        prec = recs[proc[0].fn.a[1]]
-        mfn = ci.methods[proc[0].fn.a[1]]
-        t = param(mfn.args.args[1].arg)
-        tid = A(T("sub", (A(t, "ktraces"), const(0))), "tid")
-        get = lambda table, key, d: T("call", (T("attr", (A(SELF, table), "get")), (key, d), ()))
-        pid = get("threads_pids", tid, const(-1))
-        name = get("pids_names", pid, const(""))
-        fp = A(SELF, "filter_process")
-        want_pred = N(T("bool", ("or", (T("cmp", ("==", fp, T("call", (T("builtin", ("str",)), (pid,), ())))),
-                                        T("cmp", ("==", fp, name))))))
-        gotp = N(_in_tuple_as_or(prec.return_term()))
-        run.ob("R4", MOD, proc[0].fn.a[1], "predicate", gotp == want_pred,
+        run.ob("R4", MOD, scope_, "predicate", gotp == want_pred,
                "" if gotp == want_pred else
                f"the process predicate is `{sym.pretty(gotp)[:200]}`; the property requires the first record's thread to be "
                f"looked up in the shared tables and compared with the requested pid text or name",
-               facts={"expected": sym.pretty(want_pred)[:300]}, line=mfn.lineno)
-        run.ob("R4", MOD, proc[0].fn.a[1], "no side effects", not prec.effects,
+               facts={"expected": sym.pretty(want_pred)[:300]}, line=line_)
+        run.ob("R4", MOD, scope_, "no side effects", not effs_,
                "the process predicate modifies state", nontrivial=False)
 
 
